@@ -123,8 +123,11 @@ class Mode:
         self.one = self.R.one
         if name == "float":
             self.zero, self.one = 0.0, 1.0
+        # float-like modes: relative convergence criterion (values of short
+        # strings can be tiny); Log scores are already logarithms -> absolute
         self.alg = Alg(self.zero, self.one, exact=name in ("bool", "poly", "maxtimes", "maxplus"),
-                       metric=self._dist)
+                       metric=self._dist, relative=name in ("float", "real"),
+                       eps=1e-14 if name in ("float", "real") else 1e-13)
 
     # abstract (decoded JSON) weight -> library weight
     def weight(self, a):
